@@ -38,6 +38,8 @@ type c02Harness struct {
 	claimAmt     map[string]int64 // hash -> amount (0 when not applicable)
 	obsNonces    []uint64         // nonces observed in this epoch, in order
 	seenObserved map[string]bool
+	epochStart   uint64         // cursor value installed by the last governance override (0 at genesis)
+	obsCount     map[uint64]int // nonce -> attestations that became observed since the last override
 }
 
 func (c *c02Harness) valIndex(oper string) int {
@@ -139,6 +141,31 @@ func (c *c02Harness) checkVotes(op string) {
 	}
 }
 
+// no_nonce_gap: since the last override the cursor has moved only together with an observation, one nonce
+// at a time: every nonce in (override value, cursor] has exactly one attestation that became observed
+// since then, and nothing was observed outside that range.
+func (c *c02Harness) checkGap(op string) {
+	last, _ := c.e.raw.GetLastObservedSkywayNonce(c.e.ctx, skyChain)
+	if last < c.epochStart {
+		c.r.Hit("no_nonce_gap", fmt.Sprintf("cursor %d below the override value %d after `%s`", last, c.epochStart, op), c.replay())
+		return
+	}
+	if last-c.epochStart > 1000 {
+		c.r.Hit("no_nonce_gap", fmt.Sprintf("cursor jumped from %d to %d after `%s`", c.epochStart, last, op), c.replay())
+		return
+	}
+	for n := c.epochStart + 1; n <= last; n++ {
+		if c.obsCount[n] != 1 {
+			c.r.Hit("no_nonce_gap", fmt.Sprintf("cursor at %d (override value %d) but nonce %d has %d observed claims after `%s`", last, c.epochStart, n, c.obsCount[n], op), c.replay())
+		}
+	}
+	for n, k := range c.obsCount {
+		if k > 0 && (n <= c.epochStart || n > last) {
+			c.r.Hit("no_nonce_gap", fmt.Sprintf("nonce %d observed outside (%d, %d] after `%s`", n, c.epochStart, last, op), c.replay())
+		}
+	}
+}
+
 func TestC02(t *testing.T) {
 	r := NewRec(t, "C02")
 	defer r.Close()
@@ -151,7 +178,7 @@ func TestC02(t *testing.T) {
 func runC02Case(t *testing.T, r *Rec, nops int) {
 	e := newSkyEnv(t, 2)
 	e.addToken("utok1", "0x1000000000000000000000000000000000000001")
-	c := &c02Harness{r: r, e: e, applied: map[string]bool{}, expectSupply: new(big.Int), claimAmt: map[string]int64{}, seenObserved: map[string]bool{}}
+	c := &c02Harness{r: r, e: e, applied: map[string]bool{}, expectSupply: new(big.Int), claimAmt: map[string]int64{}, seenObserved: map[string]bool{}, obsCount: map[uint64]int{}}
 	c.emit("reset", "ok")
 	nv := len(skykeeper.ValAddrs)
 	nonTrivial := false
@@ -217,6 +244,7 @@ func runC02Case(t *testing.T, r *Rec, nops int) {
 			c.emit(op, res+" "+c.state())
 			r.Stat("vote." + res)
 			c.checkVotes(op)
+			c.checkGap(op)
 		case x < 86: // end of block: tally with a fresh power table
 			powers := make([]int64, nv)
 			total := int64(0)
@@ -232,8 +260,10 @@ func runC02Case(t *testing.T, r *Rec, nops int) {
 				}
 				total += powers[j]
 			}
+			outside := int64(0)
 			if r.Rng.Intn(4) == 0 {
-				total += int64(r.Rng.Intn(50)) // bonded power outside our five validators
+				outside = int64(r.Rng.Intn(50)) // bonded power outside our five validators
+				total += outside
 			}
 			for j, v := range skykeeper.ValAddrs {
 				if err := e.in.StakingKeeper.SetLastValidatorPower(e.ctx, v, powers[j]); err != nil {
@@ -298,6 +328,11 @@ func runC02Case(t *testing.T, r *Rec, nops int) {
 			for j := range powers {
 				ps[j] = fmt.Sprintf("%d:%d", j+1, powers[j])
 			}
+			if outside > 0 {
+				// the model derives the total from the power table (staking keeps LastTotalPower equal to the
+				// sum of the LastValidatorPower records): the outside power is the row of a sixth, never voting validator
+				ps = append(ps, fmt.Sprintf("%d:%d", nv+1, outside))
+			}
 			op := fmt.Sprintf("%s %s %d %s", kind, strings.Join(ps, ","), total, faulted)
 			c.emit(op, c.state())
 			r.Stat("op." + kind)
@@ -333,9 +368,11 @@ func runC02Case(t *testing.T, r *Rec, nops int) {
 						r.Hit("one_claim_per_nonce", fmt.Sprintf("second claim observed at nonce %d in one epoch", a.nonce), c.replay())
 					}
 					c.seenObserved[fmt.Sprint(a.nonce)] = true
+					c.obsCount[a.nonce]++
 					minted += c.claimAmt[key]
 				}
 			}
+			c.checkGap(op)
 			got := e.in.BankKeeper.GetSupply(e.ctx, e.denoms[0]).Amount.Sub(supBefore).Int64()
 			if got != minted {
 				r.Hit("applied_exactly_once", fmt.Sprintf("this tally minted %d but the newly observed applicable claims total %d", got, minted), c.replay())
@@ -353,6 +390,7 @@ func runC02Case(t *testing.T, r *Rec, nops int) {
 				t.Fatal(err)
 			}
 			c.seenObserved = map[string]bool{}
+			c.epochStart, c.obsCount = n, map[uint64]int{}
 			c.emit(fmt.Sprintf("override %d", n), c.state())
 			r.Stat("op.override")
 		default: // an idle block
